@@ -397,6 +397,74 @@ def part_zoom(ctx):
     return len(cases)
 
 
+# ------------------------------------- 3b. value columns travel through the levels (D20, fixed)
+def cols_run(tmpdir, tag, case):
+    import cooler
+    base = tmpdir / f"{tag}.cool"
+    out = tmpdir / f"{tag}.mcool"
+    blocks = fixed_blocks(case["sizes"], case["binsize"])
+
+    def go():
+        G.make_cooler(base, blocks, case["pixels"], True, extra=case["extra"])
+        cooler.zoomify_cooler(str(base), str(out), list(case["resolutions"]), chunksize=case["chunksize"],
+                              columns=["count", "w"], agg={"w": case["agg"]})
+        levels = {}
+        for r in sorted(set(case["resolutions"]) | {case["binsize"]}):
+            p = cooler.Cooler(f"{out}::resolutions/{r}").pixels()[:]
+            cols = [c for c in p.columns if c not in ("bin1_id", "bin2_id")]
+            levels[r] = (cols, [[int(a), int(b)] + [int(p[c].values[i]) for c in ("count", "w") if c in cols]
+                                for i, (a, b) in enumerate(zip(p["bin1_id"].values, p["bin2_id"].values))])
+        return levels
+    st, res = G.guarded(go, 120)
+    for p in (base, out):
+        if p.exists():
+            os.remove(p)
+    return st, res
+
+
+def cols_oracle(case, st, res):
+    if st != "ok":
+        return {"what": "zoomify_cooler(columns=[count,w]) failed", "status": st, "type": res}
+    blocks = fixed_blocks(case["sizes"], case["binsize"])
+    px4 = [[p[0], p[1], p[2], w] for p, w in zip(case["pixels"], case["extra"])]
+    for r, (cols, rows) in sorted(res.items()):
+        if cols != ["count", "w"]:
+            return {"what": f"level {r}: value columns", "got": cols}
+        k = r // case["binsize"]
+        if k == 1:
+            exp = px4
+        else:
+            e1 = G.oracle_pixels(blocks, px4, k, "sum", 2)
+            e2 = G.oracle_pixels(blocks, px4, k, case["agg"], 3)
+            exp = [[a[0], a[1], a[2], b[2]] for a, b in zip(e1, e2)]
+        if rows != exp:
+            return {"what": f"level {r}: values", "got": rows[:20], "expected": exp[:20]}
+    return None
+
+
+def part_cols(ctx):
+    rng = ctx.rng
+    tmpdir = ctx.tmp / "cols"
+    tmpdir.mkdir(exist_ok=True)
+    cases = [{"fn": "zoomify_cooler(columns=[count,w])", "sizes": [40], "binsize": 10, "pixels": [[0, 0, 1], [0, 1, 2], [2, 3, 4]],
+              "extra": [5, 7, 9], "resolutions": [10, 20], "chunksize": 10, "agg": "sum"}]
+    for _ in range(6 if ctx.tier == "thorough" else 2):
+        sizes = [rng.randint(20, 90) for _ in range(rng.randint(1, 2))]
+        blocks = fixed_blocks(sizes, 10)
+        n = sum(len(b) for b in blocks)
+        px = [list(p) for p in G.random_pixels(rng, n, True, rng.choice(["dense", "sparse"]))]
+        cases.append({"fn": "zoomify_cooler(columns=[count,w])", "sizes": sizes, "binsize": 10, "pixels": px,
+                      "extra": [rng.randint(-5, 20) for _ in px], "resolutions": rng.choice([[20, 40], [30, 20, 60], [40]]),
+                      "chunksize": rng.choice([1, 7, 1000]), "agg": rng.choice(["sum", "max", "min"])})
+    for i, case in enumerate(cases):
+        ctx.case(case, nontrivial=True, kind="zoomify:columns")
+        st, res = cols_run(tmpdir, f"w{i}", case)
+        bad = cols_oracle(case, st, res)
+        if bad:
+            ctx.fail(case, bad, None)
+    return len(cases)
+
+
 # -------------------------------------------------------------------------- 4. CLI
 def ref_expand(spec, curres, maxres):
     """independent reading of the documented -r grammar (help text of `cooler zoomify`)"""
@@ -493,8 +561,8 @@ def part_cli(ctx):
     rng = ctx.rng
     tmpdir = ctx.tmp / "cli"
     tmpdir.mkdir(exist_ok=True)
-    # genome 51 200 bp at 10 bp: maxres = 200; genome 3 000 000 bp at 1000 bp: maxres = 11719
-    small = {"sizes": [30000, 21200], "binsize": 10}
+    # genome 51 199 bp at 10 bp: maxres = ceil(51199/256) = 200 (floor would give 199); genome 3 000 000 bp at 1000 bp: maxres = 11719
+    small = {"sizes": [30000, 21199], "binsize": 10}
     big = {"sizes": [2_000_000, 1_000_000], "binsize": 1000}
     specs = [(small, "10b"), (small, "10B"), (small, "10N"), (small, "10n"), (small, "N"), (small, "b"), (small, None),
              (small, "20,40"), (small, " 20 , 40B"), (small, "50N,30"), (small, "20b,30"), (small, "15"), (small, "10,25n"),
@@ -540,6 +608,7 @@ def run(ctx):
     scopes["multseq_cases"] = part_multseq(ctx)
     scopes["preferred_sequence_cases"] = part_prefseq(ctx)
     scopes["zoomify_runs"] = part_zoom(ctx)
+    scopes["zoomify_column_runs"] = part_cols(ctx)
     scopes["cli_runs"] = part_cli(ctx)
     ctx.exhaustive = True
     ctx.extra["scopes"] = scopes
@@ -553,6 +622,9 @@ def replay(ctx, case):
         from cooler._reduce import preferred_sequence
         got = [int(x) for x in preferred_sequence(case["start"], case["stop"], case["style"])]
         return got == ref_pref(case["start"], case["stop"], case["style"] == "binary")
+    if fn.startswith("zoomify_cooler(columns"):
+        st, res = cols_run(ctx.tmp, "replay", case)
+        return cols_oracle(case, st, res) is None
     if fn == "zoomify_cooler":
         st, res, srcs = zoom_run(ctx.tmp, "replay", case)
         return zoom_oracle(case, st, res, srcs) is None
